@@ -75,12 +75,12 @@ type Env struct {
 // that follows (cancelling contexts, closing watches) is scheduled too but is not part of the
 // event log that the determinism digest covers.
 type frozenRun struct {
-	digest, schedHash                                     uint64
+	digest, schedHash                                   uint64
 	steps, yields, preempts, focusPreempts, focusYields int
-	simNs                                                 int64
-	counters                                              map[string]int
-	pairs                                                 []string
-	unknown                                               int
+	simNs                                               int64
+	counters                                            map[string]int
+	pairs                                               []string
+	unknown                                             int
 }
 
 func (e *Env) Freeze() {
